@@ -556,9 +556,19 @@ def task(t, res):
     elif part == "legacy_order":
         # the vocabularies of one mode built in another order than ascending (fresh interpreter): what was built for one size must
         # not shape the vocabulary of another
+        from ..runner import Result
+
+        sub = Result()
         for g in t["gs"]:
-            case_legacy(res, t["mode"], g, t["tier"])
-        case_legacy_prefix(res)
+            case_legacy(sub, t["mode"], g, t["tier"])
+        case_legacy_prefix(sub)
+        res.evaluations += sub.evaluations
+        res.distinct |= sub.distinct
+        for f in sub.fails:
+            # own keys: the same symptom found by an ordinary task (possibly in a worker that had built other sizes before) must not shadow
+            # this one, which replays as a whole task in a fresh interpreter
+            res.fail(f["key"] + "|sizes_built_in_non_ascending_order", f"vocabularies of {t['mode']} built in the order {t['gs']} in one fresh interpreter: " + f["what"],
+                     dict(kind="after", task=t))
     elif part == "hashseed_child":
         # "a token's id never changes": not with the interpreter's hash seed either - the layout is judged in a child with another seed
         import os
